@@ -10,6 +10,7 @@ package ro
 
 //@ operator Take
 //@   props C04 C14
+//@   otherwise count == 0 : returns Empty()
 //@   requires count >= 1
 //@   ghost n int = 0
 //@   inv index == n && n < count
@@ -383,6 +384,7 @@ package ro
 
 //@ operator Repeat
 //@   props C04 C09
+//@   otherwise count == 0 : returns Empty()
 //@   requires count >= 1
 //@   on subscribe(ctx, destination) : emits loop.L0, Complete(ctx)
 
@@ -393,6 +395,7 @@ package ro
 
 //@ operator Range
 //@   props C04 C09
+//@   otherwise start == end : returns Empty()
 //@   on subscribe(ctx, destination) : emits loop.L0, Complete(ctx)
 
 //@ loop Range$1#0
@@ -570,6 +573,7 @@ package ro
 
 //@ operator RaceWith
 //@   props C05 C14
+//@   otherwise len(sources) == 0 : returns RaceWith$1
 //@   note won is -1 until a source notifies; j is the index of the source these callbacks belong to
 //@   on next(ctx, value) when won == -1 || won == j : emits Next(ctx, value) ; post won' == j
 //@   on next(ctx, value) when won != -1 && won != j : emits ; post won' == won
@@ -603,6 +607,7 @@ package ro
 
 //@ operator RepeatWith
 //@   props C15 C09
+//@   otherwise count == 0 : returns Empty()
 //@   alias attempt=source.SubscribeWithContext()
 //@   requires count >= 1
 //@   on next(ctx, value) : emits Next(ctx, value)
@@ -615,6 +620,7 @@ package ro
 
 //@ operator OnErrorResumeNextWith
 //@   props C15 C09
+//@   otherwise len(finally) == 0 : returns source
 //@   alias attempt=sources[].SubscribeWithContext() each=sources[]
 //@   on next(ctx, value) : emits Next(ctx, value)
 //@   on error(ctx, e) : emits ; post err' == e && lastCtx' == ctx
@@ -747,6 +753,7 @@ package ro
 
 //@ operator TakeLast
 //@   props C04 C09
+//@   otherwise count == 0 : returns Empty()
 //@   note the sliding buffer is the machine state: it holds the last min(index, count) (context, value) pairs in arrival order
 //@   requires count >= 1
 //@   inv index >= 0
@@ -847,3 +854,8 @@ package ro
 //@   track callfn.finally fallback.SubscribeWithContext subscriptions.AddUnsubscribable
 //@   on next(ctx, value) : emits Next(ctx, value)
 //@   on error(ctx, err) : emits callfn.finally(err), fallback.SubscribeWithContext(ctx, destination), subscriptions.AddUnsubscribable(res(fallback.SubscribeWithContext))
+
+//@ func RaceWith$1
+//@   note RaceWith() without competitors is the identity
+//@   props C05 C04
+//@   ensures [identity] result == source
